@@ -63,7 +63,7 @@ def spec_from_seed(run_seed, tier):
     return {"kind": "sys", "prop": "C13", "text": text, "tags": sorted(tags), "system_molweight": sysw, "ops_seed": rnd.randrange(1 << 30),
             "sched": {"seed": rnd.randrange(1 << 48), "choice_policy": rnd.choice(["faithful", "uniform_support", "mix", "rare"]),
                       "draw_policy": rnd.choice(["natural", "low", "mid"]), "script": None, "budget": 30000},
-            "n_generators": n_gen, "faults": faults, "enumerate": enum}
+            "n_generators": n_gen, "faults": faults, "enumerate": enum, "siblings": rnd.random() < 0.3}
 
 
 def _enumerate_crash_points(spec, max_points):
@@ -218,7 +218,8 @@ def execute(spec):
     if spec.get("enumerate"):
         return _enumerate_crash_points(spec, spec["enumerate"])
     r = sysrun.run_system(spec["text"], spec["ops_seed"], dict(spec["sched"]), n_generators=spec["n_generators"], faults=spec["faults"],
-                          props=("C04", "C05", "C06"), system_molweight=spec.get("system_molweight"))
+                          props=("C04", "C05", "C06"), system_molweight=spec.get("system_molweight"),
+                          sibling_systems=bool(spec.get("siblings")))
     if r.get("harness_error"):
         return r
     viols = r["violations"]
